@@ -724,8 +724,71 @@ func genDispatch(r *rand.Rand) cpuCase {
 	return cpuCase{family: "dispatch", text: g.text(), regs: initRegs(r, g), memSize: ms, mem: make([]int8, ms)}
 }
 
+// G-stream: loads and stores that never share a 64-byte line (so no memory dependence exists between them):
+// mode 0 keeps storing to one or two fixed lines (region [0,2048), possibly the upper half of a 128-byte block)
+// while loads stream over 20-60 distinct lines of [4096,16384); mode 1 streams the stores and keeps loading one
+// fixed line. Capacity evictions of clean and dirty lines from every cache level, the final write-back, and
+// the last value stored to each byte are what the final memory image shows (C05/C06/C09).
+func genStream(r *rand.Rand) cpuCase {
+	ms := 16384
+	g := newGen(r, 3+r.Intn(3), ms)
+	g.base = []int{9, 20}
+	fixed := r.Intn(32) * 64
+	fixed2 := (fixed + 64*(1+r.Intn(8))) % 2048
+	g.emit("li s1, %d", fixed)
+	sbase := 4096 + r.Intn(16)*64
+	g.emit("li s4, %d", sbase)
+	stride := []int{64, 128, 192}[r.Intn(3)]
+	n := 20 + r.Intn(41)
+	if mx := (ms - 128 - sbase) / stride; n > mx {
+		n = mx
+	}
+	mode := r.Intn(2)
+	g.emit("li s10, %d", n)
+	l := g.label()
+	g.place(l)
+	src := func() string {
+		if r.Intn(2) == 0 {
+			return "s10"
+		}
+		return g.srcReg()
+	}
+	st := func() string { return []string{"sw", "sb", "sh"}[r.Intn(3)] }
+	ld := func() string { return []string{"lw", "lb", "lh"}[r.Intn(3)] }
+	store := func(off int, base string) {
+		if op := st(); op == "sh" { // the simulator's `sh` takes three operands
+			g.emit("sh %s, %d, %s", src(), off, base)
+		} else {
+			g.emit("%s %s, %d(%s)", op, src(), off, base)
+		}
+	}
+	if mode == 0 {
+		store(r.Intn(16)*4, "s1")
+		if r.Intn(3) == 0 {
+			store(fixed2-fixed+r.Intn(16)*4, "s1")
+		}
+		g.emit("%s %s, %d(s4)", ld(), g.reg(), r.Intn(16)*4)
+	} else {
+		store(r.Intn(16)*4, "s4")
+		g.emit("%s %s, %d(s1)", ld(), g.reg(), r.Intn(16)*4)
+	}
+	if r.Intn(3) == 0 {
+		g.alu()
+	}
+	g.emit("addi s4, s4, %d", stride)
+	g.emit("addi s10, s10, -1")
+	g.emit("bnez s10, %s", l)
+	g.body(r.Intn(3), false)
+	if r.Intn(2) == 0 {
+		g.emit("ret")
+	}
+	return cpuCase{family: "stream", text: g.text(), regs: initRegs(r, g), memSize: ms, mem: randMem(r, ms)}
+}
+
 func genCase(r *rand.Rand, family string) cpuCase {
 	switch family {
+	case "stream":
+		return genStream(r)
 	case "dispatch":
 		return genDispatch(r)
 	case "alu":
